@@ -14,7 +14,8 @@ from guppylang_internals.compiler.expr_compiler import ExprCompiler
 from guppylang_internals.definition.value import CallableDef
 from guppylang_internals.diagnostic import Error
 from guppylang_internals.error import GuppyComptimeError, GuppyError, exception_hook
-from guppylang_internals.nodes import PlaceNode
+from guppylang_internals.engine import ENGINE
+from guppylang_internals.nodes import BarrierExpr, GlobalCall, PlaceNode
 from guppylang_internals.tracing.builtins_mock import mock_builtins
 from guppylang_internals.tracing.object import GuppyObject
 from guppylang_internals.tracing.state import (
@@ -180,8 +181,19 @@ def trace_call(func: CallableDef, *args: Any) -> Any:
     # Update inouts
     # If the input types of the function aren't known, we can't check this.
     # This is the case for functions with a custom checker and no type annotations.
-    if len(func.ty.inputs) != 0:
-        for inp, arg, var in zip(func.ty.inputs, args, arg_vars, strict=True):
+    inputs = func.ty.inputs
+    if len(inputs) == 0:
+        # Overloaded functions and `barrier` carry a dummy signature, the checked call
+        # knows the function type that was actually used
+        match call_node:
+            case GlobalCall(def_id=def_id):
+                callee = ENGINE.get_parsed(def_id)
+                if isinstance(callee, CallableDef):
+                    inputs = callee.ty.inputs
+            case BarrierExpr(func_ty=barrier_ty):
+                inputs = barrier_ty.inputs
+    if len(inputs) == len(args):
+        for inp, arg, var in zip(inputs, args, arg_vars, strict=True):
             if InputFlags.Inout in inp.flags:
                 # Note that `inp.ty` could refer to bound variables in the function
                 # signature. Instead, make sure to use `var.ty` which will always be a
